@@ -368,8 +368,11 @@ type Ctx struct {
 	Ambig bool
 }
 
-// Gran is the clock granularity (ms) within which a deadline comparison is not decidable.
-const Gran = 3
+// Gran is the clock granularity (ms) within which a deadline comparison is not decidable. (It was 3 until a quick run
+// reported a PTTL 4 ms above what the harness's wall-clock stamps allow: the emulator measures remaining time on the
+// monotonic clock, the harness stamps wall-clock milliseconds, and the two drift apart by a few ms when the VM's clock
+// is adjusted.)
+const Gran = 8
 
 func (c *Ctx) db() map[string]*Obj { return c.M.DB[c.S.DB] }
 
